@@ -1,4 +1,6 @@
 import IsalVerif.Impl.MhC
+import IsalVerif.Lemmas.Absorb
+import IsalVerif.Lemmas.PadSpec
 /-! What `MH_SHA1_UPDATE_FUNCTION` / `MH_SHA256_UPDATE_FUNCTION` of today's source computes: which bytes go into the
     partial buffer, which bytes the block function is called on, how `total_length` moves. -/
 namespace IsalVerif.MhC
@@ -310,5 +312,142 @@ theorem canon_mh_update (s : St) (ht : s.total < 2^64) (hl : s.input.length + 10
           rw [ep, poke_length _ _ _ (by rw [List.length_replicate, hpl1]; decide), hpl1]
         rw [run_tail sc (by rw [e0]; omega) (by rw [e3, e0, ei]; omega) (by rw [e3]; omega) hpl2]
         simp only [c2, ne_eq, not_false_eq_true, if_true, e0, e3, ei, ep, ec, et]
+
+end IsalVerif.MhC
+
+/-! ### `mhSpec` refines the abstract streaming law `absorb` (on which the C05 theorems rest) -/
+namespace IsalVerif.MhC
+variable {D : Type}
+
+theorem poke_take_exact (buf : Bytes) (off : Nat) (v : Bytes) (h : off + v.length ≤ buf.length) :
+    (poke buf off v).take (off + v.length) = buf.take off ++ v := by
+  unfold poke
+  have h1 : (buf.take off ++ v).length = off + v.length := by simp; omega
+  rw [List.take_append_of_le_length (by rw [h1]; exact Nat.le_refl _), ← h1, List.take_length]
+
+/-- abstract state after the calls recorded by the specification -/
+def absOf (f : D → Bytes → D) (d : D) (r : Res) : S UInt8 D :=
+  ⟨r.calls.foldl (fun d c => (blocks 1024 c.n c.data).foldl f d) d, r.part.take (r.total % 1024)⟩
+
+theorem blocks_one (X : Bytes) (h : X.length = 1024) : blocks 1024 1 X = [X] := by
+  simp only [blocks]; rw [List.take_of_length_le (by omega)]
+
+set_option maxRecDepth 8000 in
+theorem mhSpec_absorb (f : D → Bytes → D) (d : D) (total : Nat) (part input : Bytes) (hp : part.length = 2048)
+    (h64 : total + input.length < 2^64) :
+    absOf f d (mhSpec total part input) = absorb 1024 f ⟨d, part.take (total % 1024)⟩ input := by
+  have hpbl : total % 1024 < 1024 := Nat.mod_lt _ (by decide)
+  have hP : (part.take (total % 1024)).length = total % 1024 := by rw [List.length_take]; omega
+  unfold mhSpec absOf
+  by_cases c0 : input.length = 0
+  · have : input = [] := List.length_eq_zero_iff.mp c0
+    subst this
+    simp only [List.length_nil, if_true, List.foldl_nil]
+    rw [absorb_nil _ _ _ (by simp only []; rw [hP]; exact hpbl)]
+  · simp only [c0, if_false]
+    have hmod : (total + input.length) % 2^64 = total + input.length := Nat.mod_eq_of_lt h64
+    by_cases c1 : input.length + total % 1024 < 1024
+    · simp only [c1, if_true, List.foldl_nil, hmod]
+      have hm : (total + input.length) % 1024 = total % 1024 + input.length := by omega
+      have ht := poke_take_exact part (total % 1024) (input.take input.length) (by simp [hp]; omega)
+      simp only [List.take_length] at ht
+      rw [hm, List.take_length, ht]
+      simp only [absorb]
+      have h0 : (part.take (total % 1024) ++ input).length / 1024 = 0 := by
+        apply Nat.div_eq_of_lt; rw [List.length_append, hP]; omega
+      rw [h0]; simp [blocks]
+    · simp only [c1, if_false, hmod]
+      -- split the input at the point where the carried block is complete
+      by_cases c2 : total % 1024 = 0
+      · -- nothing carried
+        simp only [c2, ne_eq, not_true_eq_false, if_false, List.take_zero, Nat.zero_add, List.drop_zero]
+        have hm : (total + input.length) % 1024 = input.length % 1024 := by omega
+        rw [hm]
+        simp only [absorb, List.nil_append]
+        by_cases c3 : input.length / 1024 = 0
+        · simp only [c3, ne_eq, not_true_eq_false, if_false, List.foldl_nil, blocks, Nat.zero_mul, List.drop_zero]
+          have hl : input.length % 1024 = input.length := by omega
+          by_cases c4 : input.length % 1024 = 0
+          · exfalso; omega
+          · simp only [c4, ne_eq, not_false_eq_true, if_true]
+            have ht := poke_take_exact part 0 (input.take (input.length % 1024)) (by simp [hp]; omega)
+            simp only [Nat.zero_add, List.take_zero, List.nil_append, List.length_take] at ht
+            rw [hl, List.take_length] at ht ⊢
+            rw [Nat.min_self] at ht
+            rw [ht]
+        · simp only [c3, ne_eq, not_false_eq_true, if_true, List.nil_append, List.foldl_cons, List.foldl_nil]
+          rw [← blocks_take 1024 (input.length / 1024) input (Nat.div_mul_le_self _ _)]
+          congr 1
+          have hdl : (input.drop (input.length / 1024 * 1024)).length = input.length % 1024 := by
+            rw [List.length_drop]; have := Nat.div_add_mod input.length 1024; omega
+          by_cases c4 : input.length % 1024 = 0
+          · simp only [c4, ne_eq, not_true_eq_false, if_false, List.take_zero]
+            exact (List.eq_nil_of_length_eq_zero (by rw [hdl, c4])).symm
+          · simp only [c4, ne_eq, not_false_eq_true, if_true]
+            have ht := poke_take_exact part 0 ((input.drop (input.length / 1024 * 1024)).take (input.length % 1024))
+              (by simp [hp]; omega)
+            simp only [Nat.zero_add, List.take_zero, List.nil_append, List.length_take, hdl, Nat.min_self] at ht
+            rw [ht, List.take_of_length_le (by rw [hdl]; exact Nat.le_refl _)]
+      · -- a carried partial block is completed first
+        have hc : 1024 - total % 1024 ≤ input.length := by omega
+        simp only [c2, ne_eq, not_false_eq_true, if_true]
+        have hX : (poke part (total % 1024) (input.take (1024 - total % 1024))).take 1024 =
+            part.take (total % 1024) ++ input.take (1024 - total % 1024) := by
+          have := poke_take_exact part (total % 1024) (input.take (1024 - total % 1024)) (by simp [hp]; omega)
+          rw [List.length_take, Nat.min_eq_left hc, show total % 1024 + (1024 - total % 1024) = 1024 from by omega] at this
+          exact this
+        have hXl : (part.take (total % 1024) ++ input.take (1024 - total % 1024)).length = 1024 := by
+          rw [List.length_append, hP, List.length_take, Nat.min_eq_left hc]; omega
+        -- right-hand side: absorb in two steps
+        have hsplit : input = input.take (1024 - total % 1024) ++ input.drop (1024 - total % 1024) :=
+          (List.take_append_drop _ _).symm
+        have hstep1 : absorb 1024 f ⟨d, part.take (total % 1024)⟩ (input.take (1024 - total % 1024)) =
+            ⟨f d (part.take (total % 1024) ++ input.take (1024 - total % 1024)), []⟩ := by
+          simp only [absorb, hXl, Nat.div_self (show 0 < 1024 by decide), blocks_one _ hXl, List.foldl_cons, List.foldl_nil,
+            Nat.one_mul]
+          congr 1
+          exact List.drop_eq_nil_of_le (by rw [hXl]; exact Nat.le_refl _)
+        have hrl : (input.drop (1024 - total % 1024)).length = input.length - (1024 - total % 1024) := List.length_drop
+        have hpa : (poke part (total % 1024) (input.take (1024 - total % 1024))).length = 2048 := by
+          rw [poke_length _ _ _ (by rw [List.length_take, Nat.min_eq_left hc, hp]; omega), hp]
+        have hpl1 : (poke (poke part (total % 1024) (input.take (1024 - total % 1024))) 0 (List.replicate 1024 0)).length = 2048 := by
+          rw [poke_length _ _ _ (by rw [List.length_replicate, hpa]; decide), hpa]
+        conv => rhs; rw [hsplit, ← absorb_append 1024 (by decide) f, hstep1]
+        simp only [absorb, List.nil_append, hrl]
+        have hm : (total + input.length) % 1024 = (input.length - (1024 - total % 1024)) % 1024 := by omega
+        rw [hm]
+        generalize hrest : input.drop (1024 - total % 1024) = rest at *
+        generalize hl1 : input.length - (1024 - total % 1024) = len1 at *
+        have hdd : ∀ k, input.drop (1024 - total % 1024 + k) = rest.drop k := by
+          intro k; rw [← hrest, List.drop_drop, Nat.add_comm]
+        by_cases c3 : len1 / 1024 = 0
+        · simp only [c3, ne_eq, not_true_eq_false, if_false, List.foldl_cons, List.foldl_nil, blocks, Nat.zero_mul,
+            Nat.add_zero, List.drop_zero, hX, blocks_one _ hXl]
+          congr 1
+          · rw [List.take_of_length_le (by rw [hXl]; exact Nat.le_refl _)]
+          · have hl : len1 % 1024 = len1 := by omega
+            by_cases c4 : len1 % 1024 = 0
+            · rw [c4, List.take_zero]
+              exact (List.eq_nil_of_length_eq_zero (by rw [hrl]; omega)).symm
+            · rw [if_pos c4, hrest]
+              have ht := poke_take_exact (poke (poke part (total % 1024) (input.take (1024 - total % 1024))) 0 (List.replicate 1024 0)) 0
+                (rest.take (len1 % 1024)) (by rw [hpl1]; simp; omega)
+              simp only [Nat.zero_add, List.take_zero, List.nil_append, List.length_take, hrl, hl, Nat.min_self] at ht
+              rw [hl, ht, List.take_of_length_le (by rw [hrl]; exact Nat.le_refl _)]
+        · simp only [c3, ne_eq, not_false_eq_true, if_true, List.foldl_append, List.foldl_cons, List.foldl_nil, hX,
+            blocks_one _ hXl, hrest]
+          rw [← blocks_take 1024 (len1 / 1024) rest (by rw [hrl]; exact Nat.div_mul_le_self _ _)]
+          congr 1
+          have hdl : (rest.drop (len1 / 1024 * 1024)).length = len1 % 1024 := by
+            rw [List.length_drop, hrl]; have := Nat.div_add_mod len1 1024; omega
+          rw [hdd]
+          by_cases c4 : len1 % 1024 = 0
+          · rw [c4, List.take_zero]
+            exact (List.eq_nil_of_length_eq_zero (by rw [hdl, c4])).symm
+          · rw [if_pos c4]
+            have ht := poke_take_exact (poke (poke part (total % 1024) (input.take (1024 - total % 1024))) 0 (List.replicate 1024 0)) 0
+              ((rest.drop (len1 / 1024 * 1024)).take (len1 % 1024)) (by rw [hpl1]; simp; omega)
+            simp only [Nat.zero_add, List.take_zero, List.nil_append, List.length_take, hdl, Nat.min_self] at ht
+            rw [ht, List.take_of_length_le (by rw [hdl]; exact Nat.le_refl _)]
 
 end IsalVerif.MhC
